@@ -42,7 +42,7 @@ type Engine struct {
 	prog  *ssa.Program
 	pkgs  map[string]*ssa.Package // by import path
 	stubs map[string]*ssa.Function
-	stubTags map[string]string
+	condStubs map[string][]condStub
 
 	unwind          int
 	maxSteps        int64
@@ -205,7 +205,7 @@ func loadEngine(pkgRels []string) *Engine {
 		prog:            prog,
 		pkgs:            map[string]*ssa.Package{},
 		stubs:           map[string]*ssa.Function{},
-		stubTags:        map[string]string{},
+		condStubs:       map[string][]condStub{},
 		funcsSeen:       map[*ssa.Function]int64{},
 		unwind:          64,
 		maxSteps:        20_000_000,
@@ -234,8 +234,14 @@ func loadEngine(pkgRels []string) *Engine {
 		if fn == nil {
 			fatal(2, "stub function %s not found in %s", d.fn, rel)
 		}
+		if d.tag != "" {
+			e.condStubs[d.target] = append(e.condStubs[d.target], condStub{d.tag, fn})
+			continue
+		}
+		if prev, dup := e.stubs[d.target]; dup && prev != fn {
+			fatal(2, "two unconditional stubs for %s (%s and %s): make them conditional with 'if <tag>'", d.target, prev, fn)
+		}
 		e.stubs[d.target] = fn
-		e.stubTags[d.target] = d.tag
 	}
 	// known findings
 	if b, err := os.ReadFile(filepath.Join(verifDir, "known_findings.json")); err == nil {
